@@ -17,9 +17,9 @@ import traceback
 from typing import Any, Callable, Dict, List, Optional
 
 ROOT = os.path.dirname(os.path.dirname(os.path.abspath(__file__)))
-EVIDENCE_DIR = os.path.join(ROOT, "evidence")
+EVIDENCE_DIR = os.environ.get("SX_EVIDENCE_DIR") or os.path.join(ROOT, "evidence")      # (override: development runs on a scratch worktree only)
 KNOWN_FINDINGS = os.path.join(ROOT, "known_findings.json")
-REPLAY_DIR = os.path.join(ROOT, "evidence", "replay")
+REPLAY_DIR = os.path.join(EVIDENCE_DIR, "replay")
 
 CHUNK_PATHS = 1500
 CHUNK_SECONDS = 20.0
@@ -213,7 +213,7 @@ def replay_subprocess(check_module: str, obligation: str, witness: Dict[str, Any
     with open(replay_path, "w") as fp:
         json.dump({"module": check_module, "obligation": obligation, "tier": tier, "witness": witness}, fp, indent=1, default=str)
     env = dict(os.environ)
-    env["PYTHONPATH"] = ROOT + os.pathsep + "/repo/src"
+    env["PYTHONPATH"] = ROOT + os.pathsep + os.environ.get("SX_REPO_SRC", "/repo/src")
     env.pop("SX_ACTIVE", None)
     p = subprocess.run([sys.executable, os.path.join(ROOT, "checks", "replay.py"), replay_path],
                        capture_output=True, text=True, env=env, timeout=600)
